@@ -498,6 +498,12 @@ def m_btree_get(ex, st, callee, args, dest_ty):
         yield st2, none()
 
 
+def m_btree_contains(ex, st, callee, args, dest_ty):
+    base, m = _map_ref(ex, st, args[0])
+    kr = _rank(deref(ex, st, args[1]))
+    yield st, mk_bool(z3.simplify(z3.Or([z3.And(m.len > i, _rank(ent.fields[0]) == kr) for i, ent in enumerate(m.items)] + [z3.BoolVal(False)])))
+
+
 def m_btree_new(ex, st, callee, args, dest_ty):
     yield st, MapV(z3.IntVal(0), (), "kv")
 
@@ -671,6 +677,7 @@ VALUE_MODELS = [
     (R(r"^<std::collections::btree_map::Keys<.*> as IntoIterator>::into_iter$"), m_into_iter_id),
     (R(r"^<std::collections::btree_map::Keys<.*> as ExactSizeIterator>::len$|^BTreeMap::<.*>::len$"), m_btree_len),
     (R(r"^BTreeMap::<.*>::get::<.*>$"), m_btree_get),
+    (R(r"^BTreeMap::<.*>::contains_key::<.*>$"), m_btree_contains),
     (R(r"^<BTreeMap<.*> as PartialEq>::eq$"), m_btree_eq),
     (R(r"^<Box<.*> as Borrow<.*>>::borrow$|^<Box<.*> as Deref>::deref$|^<Box<.*> as AsRef<.*>>::as_ref$"), m_box_borrow),
     (R(r"^<(dmntk_feel::)?Name as PartialEq>::(eq)$"), m_name_eq),
